@@ -317,3 +317,41 @@ Proof.
   destruct (arena_inv_fold hdr sizes (arena_init hdr) Hall (arena_inv_init hdr)) as (x & _ & _ & _ & Hok).
   exact Hok.
 Qed.
+
+(* ------------------------------------------------------------------ completeness: rules are linked *)
+Lemma is_member_spec : forall chains off,
+  is_member (member_map chains) off = true -> exists l, In l chains /\ In off (map c_off l).
+Proof.
+  intros chains off H. unfold is_member in H.
+  destruct (find_alloc (member_map chains) off) as [sz|] eqn:Hf; [|discriminate H].
+  unfold member_map in Hf. destruct (find_alloc_build _ _ _ Hf) as (a & Ha & Ho & _).
+  apply in_map_iff in Ha. destruct Ha as (x & Hx & Hin). subst a. cbn [a_off] in Ho.
+  apply in_concat in Hin. destruct Hin as (l & Hl & Hxl).
+  exists l. split; [exact Hl|]. apply in_map_iff. exists x. split; [exact Ho | exact Hxl].
+Qed.
+
+Lemma member_of_pairs : forall (A : Type) (chains : list (A * list celem)) off,
+  is_member (member_map (map snd chains)) off = true ->
+  exists k l, In (k, l) chains /\ In off (map c_off l).
+Proof.
+  intros A chains off H. destruct (is_member_spec _ _ H) as (l & Hl & Hin).
+  apply in_map_iff in Hl. destruct Hl as ([k l'] & Heq & Hkl). cbn [snd] in Heq. subst l'.
+  exists k, l. split; assumption.
+Qed.
+
+Lemma rules_linked_l : forall i rules r, rules_linked i rules = true -> In r rules ->
+  (exp_fwd r = true -> exists h l, In (h, l) (i_fwd i) /\ In (ri_off r) (map c_off l)) /\
+  (exp_back r = true -> exists h l, In (h, l) (i_back i) /\ In (ri_off r) (map c_off l)) /\
+  (exp_char r = true -> exists vb l, In (vb, l) (i_chars i) /\ In (ri_off r) (map c_off l)) /\
+  (exp_cell r = true -> exists vb l, In (vb, l) (i_cells i) /\ In (ri_off r) (map c_off l)) /\
+  (exp_fpass r = true -> exists n l, In (n, l) (i_fpass i) /\ In (ri_off r) (map c_off l)) /\
+  (exp_bpass r = true -> exists n l, In (n, l) (i_bpass i) /\ In (ri_off r) (map c_off l)).
+Proof.
+  intros i rules r H Hin. unfold rules_linked in H. rewrite forallb_forall in H. specialize (H r Hin).
+  unfold rule_linked in H.
+  repeat (apply andb_prop in H; let H2 := fresh "Hc" in destruct H as [H H2]).
+  repeat split; intros He; match goal with
+  | Hx : (if ?e r then _ else true) = true |- _ => rewrite He in Hx; apply member_of_pairs in Hx; exact Hx
+  end.
+Qed.
+Print Assumptions rules_linked_l.
